@@ -97,9 +97,27 @@ def _fp(x):
     return ["num", num, -(den.bit_length() - 1)]
 
 
+def _request(c):
+    """the requested dtype the way a caller may spell it: the library's own object, an equal dtype object built
+    afresh, the scalar type, a string or a field list"""
+    import numpy as np
+    form, code = c.get("dst_form"), c["dst"]
+    if not form or code > 2:
+        return _np_dtype(code)
+    if form == "fresh":
+        return np.dtype([("real", np.int16), ("imag", np.int16)]) if code == 0 else np.dtype(_np_dtype(code).str)
+    if form == "spec":
+        return [("real", "<i2"), ("imag", "<i2")] if code == 0 else _np_dtype(code).name
+    if form == "type":
+        return _np_dtype(code) if code == 0 else _np_dtype(code).type
+    raise AssertionError(form)
+
+
 def run_impl(c):
     import numpy as np
+    import warnings
     from nitypes.complex import ComplexInt32DType, convert_complex
+    warnings.filterwarnings("ignore", "overflow encountered in cast")  # complex128 -> complex64 beyond float32: inf, as IEEE says
     k = c["k"]
     if k == "layout":
         a = np.zeros(len(c["values"]), ComplexInt32DType)
@@ -143,7 +161,7 @@ def run_impl(c):
     before = np.array(x, copy=True)
 
     def f():
-        r = convert_complex(_np_dtype(c["dst"]), x)
+        r = convert_complex(_request(c), x)
         if r.dtype != _np_dtype(c["dst"]):
             raise AssertionError("dtype")
         if np.ascontiguousarray(x).tobytes() != np.ascontiguousarray(before).tobytes():
@@ -205,7 +223,7 @@ def sig(c, r):
     if k != "conv":
         return "%s|%s" % (k, c.get("chunk", "")), True
     cls = c.get("cls", "")
-    return "conv|%d|%d|nd%d|%s|%s|%s|%s" % (c["src"], c["dst"], len(c["shape"]), c.get("layout", "C"), "scalar" if c.get("scalar") else "",
+    return "conv|%d|%d%s|nd%d|%s|%s|%s|%s" % (c["src"], c["dst"], c.get("dst_form", ""), len(c["shape"]), c.get("layout", "C"), "scalar" if c.get("scalar") else "",
                                           cls, r.get("exc", "ok")), True
 
 
@@ -274,6 +292,8 @@ def gen_cases(rng, tier):
             vals = [[float(_float_part(rng, src, cls)).hex(), float(_float_part(rng, src, cls)).hex()] for _ in range(n)]
         c = {"k": "conv", "src": src, "dst": dst, "shape": shape, "values": vals, "layout": rng.choice(layouts), "cls": cls,
              "scalar": shape == [] and rng.random() < 0.5}
+        if rng.random() < 0.35:
+            c["dst_form"] = rng.choice(["fresh", "fresh", "spec", "type"])
         cases.append(c)
         if len(shape) >= 2 and shape[0] >= 1 and rng.random() < 0.5:
             # the same rows as a broadcast (zero-stride) view
